@@ -205,7 +205,7 @@ def h_point_move(vc):
     v = C.V(vc, "v")
     p0 = SP.vec(p)
     bv = vc.snapshot(v)
-    out = vc.call(p.move, v)
+    out = vc.call(p.move, v, _mutates=(p,))
     vc.ensure("Point.move does not raise", out.returned)
     if out.returned:
         r = out.value
